@@ -43,16 +43,11 @@ class Run:
         # invariant on them and continues from them.  For the comparison the dump is replaced by its length
         # and CRC-32, which the model prints for the state it re-serialises.
         handed = {}
+        dumps = core.FST_DUMPS.get((False, False), {})
         for cid, line, meta in self.cases:
-            if meta.get("twostage"):
-                raw = self.impl_raw.get(cid, "missing")
-                dumps = [t[4:] for t in raw.split(" ") if t.startswith("fst:")]
-                handed[cid] = ",".join(dumps)
-                import zlib
-                self.impl_raw[cid] = " ".join(
-                    ("fst:%d:%08x" % (len(t[4:]) // 2, zlib.crc32(bytes.fromhex(t[4:])) & 0xFFFFFFFF)) if t.startswith("fst:") else t
-                    for t in raw.split(" "))
-                self.count("twostage:states-handed-over", len(dumps))
+            if meta.get("twostage") and dumps.get(cid):
+                handed[cid] = ",".join(dumps[cid])
+                self.count("twostage:states-handed-over", len(dumps[cid]))
         cmp_lines = [(l + (" fst=" + handed[c] if handed.get(c) else "")) for c, l, m in self.cases if m["cmp"]]
         self.model = core.run_model(cmp_lines)
         rel = [l for _, l, m in self.cases if m["release"]]
